@@ -2,7 +2,7 @@
 # pretest_seeded.sh <patch.diff> <prop> — run a check against a scratch copy of /repo with the patch (does not touch /repo)
 set -u
 PATCH=$1; PROP=$2
-mkdir -p /tmp/mut && rsync -a --delete --exclude target --exclude .git /repo/ /tmp/mut/repo/
+mkdir -p /tmp/mut && rsync -a --delete --exclude target --exclude .git ${SRC:-/repo}/ /tmp/mut/repo/
 cd /tmp/mut/repo && patch -p1 -s < $PATCH || exit 3
-cd /verif && SVVERIF_NO_FLOORS=1 ./check $PROP quick --repo /tmp/mut/repo 2>&1 | grep -v "^KNOWN" | cut -c1-400 | tail -5
-git -C /verif checkout -- evidence 2>/dev/null
+cd ${VDIR:-/verif} && SVVERIF_NO_FLOORS=1 ./check $PROP quick --repo /tmp/mut/repo 2>&1 | grep -v "^KNOWN" | cut -c1-400 | tail -5
+git -C ${VDIR:-/verif} checkout -- evidence 2>/dev/null
